@@ -1,6 +1,12 @@
+mod alloc_count;
 mod api;
 mod engine;
 mod misc;
+mod more;
+mod spell;
+
+#[global_allocator]
+static GLOBAL: alloc_count::Counting = alloc_count::Counting;
 mod pat;
 mod session;
 mod wire;
@@ -38,6 +44,11 @@ fn main() {
         "c12" => misc::run_c12(&cfg),
         "c17" => misc::run_c17(&cfg),
         "c20" => misc::run_c20(&cfg),
+        "c04" => more::run_c04(&cfg),
+        "c06" => more::run_c06(&cfg),
+        "c14" => more::run_c14(&cfg),
+        "c18" => more::run_c18(&cfg),
+        "c19" => spell::run_c19(&cfg),
         "list" => {
             for p in engine::patterns(&cfg.space, &cfg.tier, cfg.seed) {
                 println!("{}", p);
